@@ -42,6 +42,10 @@ type RigSpec struct {
 	Theta      int    `json:"theta"` // plant threshold
 	Algo       string `json:"algo"`  // direct | pid
 	TempMdeg   int    `json:"tempMdeg,omitempty"` // sensor reading (default 45000; the linear curve spans 30..70 degrees)
+	// configured limits of a hwmon fan (nil pointers = not configured); when all are nil a never-stop hwmon fan gets 20..60
+	CfgMin   *int `json:"cfgMin,omitempty"`
+	CfgStart *int `json:"cfgStart,omitempty"`
+	CfgMax   *int `json:"cfgMax,omitempty"`
 }
 
 type Rig struct {
@@ -176,7 +180,9 @@ func newRig(ctx *Ctx, spec RigSpec) *Rig {
 		if spec.FanKind == "hwmon" {
 			cfg.HwMon = &configuration.HwMonFanConfig{Platform: "rig", Index: 1, RpmChannel: 1, PwmChannel: 1, SysfsPath: dir,
 				RpmInputPath: r.RpmPath, PwmPath: r.PwmPath, PwmEnablePath: r.EnPath}
-			if spec.NeverStop {
+			if spec.CfgMin != nil || spec.CfgStart != nil || spec.CfgMax != nil {
+				cfg.MinPwm, cfg.StartPwm, cfg.MaxPwm = spec.CfgMin, spec.CfgStart, spec.CfgMax
+			} else if spec.NeverStop {
 				cfg.MinPwm, cfg.MaxPwm = iptr(20), iptr(60)
 			}
 		} else {
